@@ -3,5 +3,5 @@ CONSTANTS
   MaxOps = 4
   Levels = {0, 1, 11, 12, 2000000000}
   KeyCounts = {0, 1, 2}
-INVARIANTS EncryptedHasRecipient LevelInRange OnlyRecipientsOpen Replay
+INVARIANTS EveryRecipientOpensAlone EncryptedHasRecipient LevelInRange OnlyRecipientsOpen Replay
 CHECK_DEADLOCK FALSE
